@@ -703,9 +703,10 @@ void printAstTermNode(ASTNode const & astNode) {
         std::cout << "(!";
         printAstTermNode(named_term);
         std::cout << " " << name_attr.getValue();
-        ASTNode const & sym = **(name_attr.children->begin());
-        assert(sym.getType() == SYM_T or sym.getType() == QSYM_T);
-        std::cout << " " << sym.getValue();
+        if (name_attr.children != nullptr and not name_attr.children->empty()) {
+            ASTNode const & sym = **(name_attr.children->begin());
+            if (sym.getValue() != nullptr) { std::cout << " " << sym.getValue(); }
+        }
         std::cout << ')';
     } else if (t == LET_T) {
         std::cout << "(let ";
